@@ -314,4 +314,4 @@ PROPS = {
     },
 }
 
-HOOK_COMMITS = ["d77ca2a", "4f79b4b", "3978b55", "ebc00bf", "4e67e9f"]
+HOOK_COMMITS = ["d77ca2a", "4f79b4b", "3978b55", "ebc00bf", "4e67e9f", "61e227f"]
